@@ -42,13 +42,17 @@ def run(ck):
                                                                 ck.seed * 131 + i, f) for i, f in enumerate(xfiles)], timeout=900)
     xfiles = [f for f in xfiles if os.path.getsize(f) > 0]
     ck.validate_traces('IsaTrace', 'Trace_Isa.cfg', xfiles, timeout=1800, sig_prefix='exec')
+    # 4. the test generator sees the same form and length: one real GenerateTestCasesToFile vector per enabled opcode (all four
+    #    in the thorough tier), second word present exactly when the table says so, execution advances pc by the decoded length
+    from props import isa_common
+    isa_common.generator_clause(ck, parts=None if ck.thorough else (0, 4, 8, 12), tag='c02gen')
     ck.assumptions += ['TeakDecodeTable.tla was transcribed once from the pinned decoder.h and is frozen in /verif',
                        'TLC, CommunityModules (Bitwise, Json, IOUtils) and g++ are trusted']
 
 
 def replay(ck, path):
     p = path.split('#')[0]
-    if os.path.basename(p).startswith('exp_'):
+    if os.path.basename(p).startswith(('exp_', 'c02gen_')):
         ck.validate_traces('IsaTrace', 'Trace_Isa.cfg', [p], sig_prefix='exec')
     else:
         ck.validate_traces('DecodeTrace', 'Trace_Decode.cfg', [p])
